@@ -5,6 +5,7 @@ import os, sys
 sys.path.insert(0, os.path.dirname(os.path.abspath(__file__)))
 from states import UNIT as _ST, adt, F_HS, F_MSG, F_AL, F_EC
 from frame import SPEC as FRAME_SPEC
+from derived_common import header_items
 
 F_REC = "src/tls_record.rs"
 _types = [it for it in _ST["items"] if it["kind"] in ("struct", "enum", "newtype_enum") and it["file"] in (F_HS, F_MSG, F_AL, F_EC)]
@@ -40,6 +41,7 @@ pub open spec fn plaintext_post(i: Seq<u8>, r: IResult<&[u8], TlsPlaintext>) -> 
 
 UNIT = {
     "name": "plaintext",
+    "needs_expanded": True,
     "property": ["C02", "C03", "C16", "C06"],
     "prelude": ["shim_nom.rs"],
     "items": _types + [
@@ -53,9 +55,7 @@ UNIT = {
         {"file": F_REC, "kind": "const", "name": "MAX_RECORD_LEN", "ensures": "MAX_RECORD_LEN == 16640",
          "proof": "assert((1u16 << 14) == 16384u16) by (bit_vector);"},
         {"file": "-", "kind": "inline", "name": "plaintext-contract", "text": SPEC},
-        {"file": F_REC, "kind": "fn", "name": "parse_tls_record_header", "external_body": True, "contract": """
-    ensures header_post(i@, r),
-"""},
+    ] + header_items() + [
         {"file": F_REC, "kind": "fn", "name": "parse_tls_record_with_header", "external_body": True, "contract": """
     ensures r == spec_prwh(i@, *hdr),
 """},
